@@ -42,8 +42,21 @@ type memRepo struct {
 	failAsgPut int
 	// failStatePut: the next Put on /storage/state fails once
 	failStatePut bool
+	// failAsgGet: the next Get on a shard-assignment key (not the quiescence marker's) fails once with
+	// an error that is NOT state.ErrNotExist (request timed out); failLiveList: the next List of the
+	// storage nodes' registration keys fails once. faultKey: the key whose read was failed.
+	failAsgGet   bool
+	failLiveList bool
+	faultKey     string
 	// faultFired: an injected fault fired since the harness last cleared the flag
 	faultFired bool
+	// skipLiveListFault: the quiescence marker's handler is running (its Get was just seen); the List
+	// of the registrations it does next is not subject to the list fault
+	skipLiveListFault bool
+	// watchers: the channel the real discovery loop of the running master reads for each watched
+	// prefix (the harness plays etcd: it sends the watch events it wants delivered)
+	wmu      sync.Mutex
+	watchers map[string]chan *state.Event
 	// stall != nil: a Put on /storage/state waits until the channel is closed (slow repository);
 	// stalled is signalled when a Put starts waiting
 	stall   chan struct{}
@@ -54,15 +67,25 @@ type memRepo struct {
 }
 
 var errInjectedPut = fmt.Errorf("verif: injected repository write failure")
+var errInjectedGet = fmt.Errorf("verif: injected repository read failure (request timed out)")
 
 func (r *memRepo) Get(_ context.Context, key string) ([]byte, error) {
 	r.mu.Lock()
 	defer r.mu.Unlock()
+	if key == markerAsgKey {
+		r.skipLiveListFault = true
+	}
 	if key == r.sentinelKey && r.sentinelSeen != nil {
 		select {
 		case r.sentinelSeen <- struct{}{}:
 		default:
 		}
+	}
+	if r.failAsgGet && key != markerAsgKey && strings.HasPrefix(key, constants.ShardAssignmentPath+"/") {
+		r.failAsgGet = false
+		r.faultFired = true
+		r.faultKey = key
+		return nil, errInjectedGet
 	}
 	v, ok := r.kv[key]
 	if !ok {
@@ -73,6 +96,21 @@ func (r *memRepo) Get(_ context.Context, key string) ([]byte, error) {
 func (r *memRepo) List(_ context.Context, prefix string) ([]state.KeyValue, error) {
 	r.mu.Lock()
 	defer r.mu.Unlock()
+	if prefix == constants.StorageLiveNodesPath && r.skipLiveListFault {
+		r.skipLiveListFault = false
+		return r.listLocked(prefix), nil
+	}
+	if r.failLiveList && prefix == constants.StorageLiveNodesPath {
+		r.failLiveList = false
+		r.faultFired = true
+		r.faultKey = prefix
+		return nil, errInjectedGet
+	}
+	return r.listLocked(prefix), nil
+}
+
+// listLocked: the keys under prefix in key order (caller holds the lock; never subject to faults)
+func (r *memRepo) listLocked(prefix string) []state.KeyValue {
 	var keys []string
 	for k := range r.kv {
 		if strings.HasPrefix(k, prefix) {
@@ -84,7 +122,7 @@ func (r *memRepo) List(_ context.Context, prefix string) ([]state.KeyValue, erro
 	for _, k := range keys {
 		out = append(out, state.KeyValue{Key: k, Value: r.kv[k]})
 	}
-	return out, nil
+	return out
 }
 func (r *memRepo) Put(_ context.Context, key string, val []byte) error {
 	r.mu.Lock()
@@ -125,15 +163,50 @@ func (r *memRepo) Delete(_ context.Context, key string) error {
 }
 func (r *memRepo) Close() error { return nil }
 
-// WatchPrefix: the harness plays the watches itself (it hands the events to the manager), so the
-// channel the real discovery loop reads from never carries anything; it is closed with the context.
-func (r *memRepo) WatchPrefix(ctx context.Context, _ string, _ bool) state.WatchEventChan {
+// WatchPrefix: the harness plays etcd's watches. The channel the real discovery loop reads from is
+// kept per prefix; in "watched" regions the harness sends its events into it (so they travel
+// discovery loop -> state machine listener -> StateMachineFactory callback -> EmitEvent), otherwise
+// it hands events to the manager directly and the channel stays silent. Closed with the context.
+func (r *memRepo) WatchPrefix(ctx context.Context, prefix string, _ bool) state.WatchEventChan {
 	ch := make(chan *state.Event)
+	r.wmu.Lock()
+	if r.watchers == nil {
+		r.watchers = map[string]chan *state.Event{}
+	}
+	r.watchers[prefix] = ch
+	r.wmu.Unlock()
 	go func() {
 		<-ctx.Done()
+		r.wmu.Lock()
+		if r.watchers[prefix] == ch {
+			delete(r.watchers, prefix)
+		}
 		close(ch)
+		r.wmu.Unlock()
 	}()
 	return ch
+}
+
+var errWatchBarrier = fmt.Errorf("verif: watch barrier")
+
+// watchSend delivers one watch event through the discovery loop of the running master. The second
+// send (an event carrying an error, which the loop skips) returns only after the loop has come back
+// from handling the first one, i.e. after the listener's EmitEvent call has returned.
+func (r *memRepo) watchSend(prefix string, ev *state.Event) bool {
+	r.wmu.Lock()
+	ch := r.watchers[prefix]
+	r.wmu.Unlock()
+	if ch == nil {
+		return false
+	}
+	for _, e := range []*state.Event{ev, {Err: errWatchBarrier}} {
+		select {
+		case ch <- e:
+		case <-time.After(5 * time.Second):
+			return false
+		}
+	}
+	return true
 }
 
 // harness-side access (same lock)
@@ -397,6 +470,114 @@ type machine struct {
 	// over (nil for the first master of a case, which starts on an empty repository)
 	cancel context.CancelFunc
 	fct    *master.StateMachineFactory
+	// the storage-node watch: registration changes (the ephemeral key /storage/live/nodes/<id> appeared
+	// or vanished) whose NodeStartup / NodeFailure event has not been handed to the manager yet, oldest
+	// first. "Alive" for PLACEMENT is the registration (what the repository lists when the config event
+	// is handled); "alive" for LEADERSHIP is the node-event history the manager was given (m.live).
+	nodePending []nodeEv
+	// cfgSeq counts handled config events (to tell node events that were overtaken by one)
+	cfgSeq int
+	// watched: single events are delivered through the running master's real watch path (only a
+	// master that took over has state machines; the first master of a case is fed directly)
+	watched bool
+}
+
+// viaWatch delivers ev through discovery loop -> state machine -> factory callback -> EmitEvent ->
+// consumeEvent and waits until the manager has handled it. false: not applicable (fed directly).
+func (m *machine) viaWatch(c *core.Ctx, ev *discovery.Event) bool {
+	if !m.watched || m.fct == nil {
+		return false
+	}
+	var prefix string
+	typ := state.EventTypeModify
+	switch ev.Type {
+	case discovery.NodeStartup:
+		prefix = constants.StorageLiveNodesPath
+	case discovery.NodeFailure:
+		prefix, typ = constants.StorageLiveNodesPath, state.EventTypeDelete
+	case discovery.DatabaseConfigChanged:
+		prefix = constants.DatabaseConfigPath
+	case discovery.DatabaseConfigDeletion:
+		prefix, typ = constants.DatabaseConfigPath, state.EventTypeDelete
+	case discovery.ShardAssignmentChanged:
+		prefix = constants.ShardAssignmentPath
+	default:
+		return false
+	}
+	if !m.repo.watchSend(prefix, &state.Event{Type: typ, KeyValues: []state.EventKeyValue{{Key: ev.Key, Value: ev.Value}}}) {
+		c.Fail("watch-delivery-timeout", fmt.Sprintf("%s %s", ev.Type.String(), ev.Key))
+		return true
+	}
+	if !m.quiesce() {
+		c.Fail("watch-quiescence-timeout", fmt.Sprintf("%s %s", ev.Type.String(), ev.Key))
+	}
+	c.Branch("ev-delivered-through-watch-" + ev.Type.String())
+	return true
+}
+
+type nodeEv struct {
+	up     bool
+	id     int
+	key    string
+	data   []byte
+	cfgSeq int
+}
+
+// regChange changes the registration of a storage node in the repository (ground truth) and queues
+// the watch event for it.
+func (m *machine) regChange(c *core.Ctx, id int, up bool) {
+	key := constants.GetStorageLiveNodePath(strconv.Itoa(id))
+	ev := nodeEv{up: up, id: id, key: key, cfgSeq: m.cfgSeq}
+	if up {
+		node := models.StatefulNode{ID: models.NodeID(id)}
+		node.HostIP = "10.0.0." + strconv.Itoa(id)
+		ev.data, _ = json.Marshal(&node)
+		m.repo.set(key, ev.data)
+	} else {
+		m.repo.del(key)
+	}
+	m.nodePending = append(m.nodePending, ev)
+}
+
+// deliverNode hands the oldest queued node event to the manager (n < 0: all of them, in order).
+func (m *machine) deliverNode(c *core.Ctx, n int) {
+	for len(m.nodePending) > 0 && n != 0 {
+		ev := m.nodePending[0]
+		m.nodePending = m.nodePending[1:]
+		n--
+		if ev.cfgSeq != m.cfgSeq {
+			c.Branch("ev-node-event-overtaken-by-config-event")
+		}
+		if ev.up {
+			if m.live[ev.id] {
+				c.Branch("ev-up-already-live")
+			} else {
+				c.Branch("ev-up")
+			}
+			m.live[ev.id] = true
+			m.event(c, fmt.Sprintf("up %d", ev.id), &discovery.Event{Type: discovery.NodeStartup, Key: ev.key, Value: ev.data}, true)
+		} else {
+			switch {
+			case !m.live[ev.id]:
+				c.Branch("ev-down-not-live")
+			case m.leads(ev.id):
+				c.Branch("ev-down-leader")
+			default:
+				c.Branch("ev-down")
+			}
+			delete(m.live, ev.id)
+			m.event(c, fmt.Sprintf("down %d", ev.id), &discovery.Event{Type: discovery.NodeFailure, Key: ev.key}, true)
+		}
+	}
+}
+
+// registered: the storage nodes whose registration key exists right now.
+func (m *machine) registered() map[int]bool {
+	out := map[int]bool{}
+	for _, id := range m.liveIDs() {
+		out[int(id)] = true
+	}
+	return out
 }
 
 // Database names of the machine cases (the model knows databases by number). The names the
@@ -585,7 +766,9 @@ func (m *machine) event(c *core.Ctx, op string, ev *discovery.Event, publishes b
 	m.repo.faultFired = false
 	m.repo.mu.Unlock()
 	c.Guard(op, func() string {
-		master.VerifProcessEvent(m.mgr, ev)
+		if !m.viaWatch(c, ev) {
+			master.VerifProcessEvent(m.mgr, ev)
+		}
 		return m.dump()
 	})
 	m.oracle(c, op)
@@ -607,7 +790,9 @@ func (m *machine) event(c *core.Ctx, op string, ev *discovery.Event, publishes b
 
 // evStep is one scheduled event of a state-machine case.
 type evStep struct {
-	// up | down | cfg | cfgq | deliver | deliverlast | dup | putfail | statefail | burst | failover | drop
+	// up | down | cfg | cfgq | deliver | deliverlast | dup | putfail | statefail | burst | failover | drop |
+	// register | crash | delivernode (lagging node watch) | getfail | listfail (repository read faults) |
+	// cfgshrink (config with fewer shards than persisted) | badcfg | badnode (malformed events)
 	kind string
 	// up/down: node id; cfg/cfgq: db, shards (create) or extra shards (grow), replica factor;
 	// drop/deliver/deliverlast/dup: db; putfail: which of the next assignment Puts fails (1 or 2)
@@ -680,6 +865,32 @@ var scripts = [][]evStep{
 		{"cfgq", 0, 3, 0, nil}, {"cfg", 1, 2, 5, nil}, {kind: "failover", burst: []evStep{{"down", 4, 0, 0, nil}, {"up", 5, 0, 0, nil}, {"up", 6, 0, 0, nil}, {"up", 7, 0, 0, nil}}},
 		{"down", 2, 0, 0, nil}, {"up", 4, 0, 0, nil}, {kind: "failover", burst: []evStep{{"down", 2, 0, 0, nil}, {"down", 4, 0, 0, nil}, {"down", 5, 0, 0, nil}, {"down", 6, 0, 0, nil}, {"down", 7, 0, 0, nil}, {"drop", 0, 0, 0, nil}}},
 		{"up", 1, 0, 0, nil}},
+	// 11: the storage-node watch lags — a registration vanishes / appears ("crash" / "register") and
+	// databases are created and grown BEFORE the manager is given the NodeFailure / NodeStartup event
+	{{"up", 1, 0, 0, nil}, {"up", 2, 0, 0, nil}, {"up", 3, 0, 0, nil}, {"crash", 3, 0, 0, nil}, {"cfg", 0, 3, 1, nil}, {"delivernode", 0, 0, 0, nil},
+		{"register", 4, 0, 0, nil}, {"cfg", 0, 2, 0, nil}, {"delivernode", 0, 0, 0, nil}, {"crash", 1, 0, 0, nil}, {"cfgq", 1, 4, 2, nil},
+		{"register", 3, 0, 0, nil}, {"cfg", 0, 3, 0, nil}, {"delivernode", 0, 0, 0, nil}, {"delivernode", 0, 0, 0, nil}, {"deliver", 1, 0, 0, nil},
+		{"crash", 2, 0, 0, nil}, {"crash", 4, 0, 0, nil}, {"cfg", 2, 2, 1, nil}, {"cfg", 1, 3, 0, nil}, {"delivernode", 0, 0, 0, nil}, {"delivernode", 0, 0, 0, nil},
+		{"register", 1, 0, 0, nil}, {"crash", 3, 0, 0, nil}, {"cfg", 2, 2, 0, nil}, {kind: "failover"}, {"cfg", 2, 1, 0, nil}, {"crash", 1, 0, 0, nil},
+		{"cfg", 0, 1, 0, nil}, {"delivernode", 0, 0, 0, nil}, {"delivernode", 0, 0, 0, nil}},
+	// 12: repository READ faults — the Get of the persisted assignment fails (not with ErrNotExist) while a grow, an
+	// alter, a create and the config replay of a fail-over are handled, after more nodes have joined; the List of the
+	// registrations fails during a create and a grow
+	{{"up", 1, 0, 0, nil}, {"up", 2, 0, 0, nil}, {"cfg", 0, 4, 2, nil}, {"up", 3, 0, 0, nil}, {"up", 4, 0, 0, nil}, {"getfail", 0, 0, 0, nil}, {"cfg", 0, 2, 0, nil},
+		{"cfg", 0, 1, 0, nil}, {"getfail", 0, 0, 0, nil}, {"cfg", 0, 0, 2, nil}, {"getfail", 0, 0, 0, nil}, {"cfg", 1, 3, 1, nil}, {"cfg", 1, 0, 1, nil},
+		{"listfail", 0, 0, 0, nil}, {"cfg", 2, 2, 2, nil}, {"listfail", 0, 0, 0, nil}, {"cfg", 0, 1, 0, nil}, {"cfg", 2, 1, 0, nil}, {"down", 1, 0, 0, nil},
+		{kind: "failover", burst: []evStep{{"getfail", 0, 0, 0, nil}}}, {"cfg", 0, 1, 0, nil},
+		{kind: "failover", burst: []evStep{{"up", 5, 0, 0, nil}, {"down", 2, 0, 0, nil}, {"getfail", 0, 0, 0, nil}}}, {"getfail", 0, 0, 0, nil}, {"cfgq", 1, 2, 0, nil},
+		{"getfail", 0, 0, 0, nil}, {"putfail", 1, 0, 0, nil}, {"cfg", 1, 1, 0, nil}, {"deliver", 1, 0, 0, nil}, {"cfg", 1, 1, 0, nil},
+		{"badcfg", 0, 0, 0, nil}, {"badcfg", 1, 0, 0, nil}, {"badcfg", 2, 0, 0, nil}, {"badnode", 0, 0, 0, nil}, {"badnode", 1, 0, 0, nil},
+		{"cfgshrink", 0, 1, 0, nil}, {"cfg", 0, 0, 0, nil}, {"cfg", 0, 2, 0, nil}, {kind: "failover"}, {"cfgshrink", 1, 0, 0, nil}, {kind: "failover"}, {"cfg", 1, 3, 0, nil}},
+	// 13: a master started through StateMachineFactory.Start on an empty repository; every event then travels the real
+	// watch path (discovery loop -> state machine listener -> factory callback -> EmitEvent -> consumeEvent)
+	{{kind: "failover"}, {"watchmode", 1, 0, 0, nil}, {"up", 1, 0, 0, nil}, {"up", 2, 0, 0, nil}, {"up", 3, 0, 0, nil}, {"cfg", 0, 4, 2, nil}, {"down", 1, 0, 0, nil},
+		{"cfgq", 1, 3, 1, nil}, {"down", 2, 0, 0, nil}, {"deliver", 1, 0, 0, nil}, {"up", 1, 0, 0, nil}, {"cfg", 0, 2, 0, nil}, {"crash", 3, 0, 0, nil}, {"cfg", 2, 2, 1, nil},
+		{"delivernode", 0, 0, 0, nil}, {"drop", 1, 0, 0, nil}, {"dup", 1, 0, 0, nil}, {"down", 1, 0, 0, nil}, {"down", 9, 0, 0, nil}, {"up", 2, 0, 0, nil}, {"up", 2, 0, 0, nil},
+		{"getfail", 0, 0, 0, nil}, {"cfg", 0, 1, 0, nil}, {"statefail", 0, 0, 0, nil}, {"down", 2, 0, 0, nil}, {"up", 3, 0, 0, nil},
+		{kind: "failover", burst: []evStep{{"down", 3, 0, 0, nil}}}, {"up", 1, 0, 0, nil}, {"cfg", 0, 1, 0, nil}, {"drop", 2, 0, 0, nil}, {"down", 1, 0, 0, nil}},
 }
 
 func machineCase(c *core.Ctx, r *rand.Rand) {
@@ -710,6 +921,18 @@ func machineCase(c *core.Ctx, r *rand.Rand) {
 	if bursty {
 		c.Branch("case-with-bursts")
 	}
+	// the storage-node watch of the case: prompt (every registration change is handed to the manager
+	// before anything else happens) or lagging (config events overtake queued node events)
+	laggingNodes := r.Intn(3) == 0
+	if laggingNodes {
+		c.Branch("case-lagging-node-watch")
+	}
+	readFaults := r.Intn(3) == 0
+	if readFaults {
+		c.Branch("case-with-read-faults")
+	}
+	nodePend := 0
+	exists := map[int]bool{} // databases that (probably) have a persisted assignment (bias only)
 	// the generator keeps its own picture of the live set only to bias choices (repeated start-up,
 	// failure of a dead node); the events themselves are unconstrained
 	live := map[int]bool{}
@@ -726,6 +949,10 @@ func machineCase(c *core.Ctx, r *rand.Rand) {
 		return cand[r.Intn(len(cand))]
 	}
 	var evs []evStep
+	if failovers && r.Intn(2) == 0 { // the master is started through Start (empty repository); events travel the real watch path
+		evs = append(evs, evStep{kind: "failover"}, evStep{"watchmode", 1, 0, 0, nil})
+		c.Branch("case-watched-delivery")
+	}
 	pend := map[int]int{} // rough count of undelivered payloads per database (bias only)
 	if r.Intn(5) != 0 {   // mostly: a cluster that is (partly) up before the churn starts
 		for id := 0; id < nNodes; id++ {
@@ -783,8 +1010,42 @@ func machineCase(c *core.Ctx, r *rand.Rand) {
 			if r.Intn(4) == 0 {
 				sil = append(sil, evStep{"drop", r.Intn(nDB), 0, 0, nil})
 			}
+			if readFaults && r.Intn(2) == 0 {
+				sil = append(sil, evStep{"getfail", 0, 0, 0, nil})
+			}
 			evs = append(evs, evStep{kind: "failover", burst: sil})
 			pend = map[int]int{}
+			nodePend = 0
+			continue
+		}
+		if laggingNodes && nodePend > 0 && r.Intn(3) == 0 { // the node watch makes progress
+			evs = append(evs, evStep{"delivernode", 0, 0, 0, nil})
+			nodePend--
+			continue
+		}
+		if readFaults && r.Intn(6) == 0 { // a repository read fails while a config event is handled
+			kind := "getfail"
+			if r.Intn(4) == 0 {
+				kind = "listfail"
+			}
+			evs = append(evs, evStep{kind, 0, 0, 0, nil})
+			if r.Intn(3) == 0 { // sometimes together with a write fault
+				evs = append(evs, evStep{"putfail", 1 + r.Intn(2), 0, 0, nil})
+			}
+			ck, dd := "cfg", r.Intn(nDB)
+			if !exists[dd] && r.Intn(4) != 0 { // mostly: a database that already has an assignment
+				for x := 0; x < nDB; x++ {
+					if exists[x] {
+						dd = x
+					}
+				}
+			}
+			exists[dd] = true
+			if lagging && r.Intn(2) == 0 {
+				ck = "cfgq"
+				pend[dd]++
+			}
+			evs = append(evs, evStep{ck, dd, 1 + r.Intn(maxShards), 1 + r.Intn(maxRF), nil})
 			continue
 		}
 		if bursty && r.Intn(12) == 0 { // a burst of node events through EmitEvent; every event flips a node
@@ -854,22 +1115,45 @@ func machineCase(c *core.Ctx, r *rand.Rand) {
 		case k < 3:
 			id := pick(r.Intn(4) == 0) // one in four: a node that is already live
 			live[id] = true
-			evs = append(evs, evStep{"up", id, 0, 0, nil})
+			if laggingNodes && r.Intn(3) != 0 {
+				evs = append(evs, evStep{"register", id, 0, 0, nil})
+				nodePend++
+			} else {
+				evs = append(evs, evStep{"up", id, 0, 0, nil})
+				nodePend = 0
+			}
 		case k < 6:
 			id := pick(r.Intn(4) != 0) // one in four: a node that is not live
 			delete(live, id)
-			evs = append(evs, evStep{"down", id, 0, 0, nil})
+			if laggingNodes && r.Intn(3) != 0 {
+				evs = append(evs, evStep{"crash", id, 0, 0, nil})
+				nodePend++
+			} else {
+				evs = append(evs, evStep{"down", id, 0, 0, nil})
+				nodePend = 0
+			}
 		case k < 9:
 			kind, dd := "cfg", r.Intn(nDB)
+			if x := r.Intn(40); x == 0 {
+				evs = append(evs, evStep{"badcfg", r.Intn(3), 0, 0, nil})
+			} else if x == 1 {
+				evs = append(evs, evStep{"badnode", r.Intn(2), 0, 0, nil})
+			}
 			if lagging && r.Intn(3) != 0 {
 				kind = "cfgq"
 				pend[dd]++
 			} else {
 				pend[dd] = 0
+				if r.Intn(12) == 0 {
+					kind = "cfgshrink"
+				}
 			}
+			exists[dd] = true
 			evs = append(evs, evStep{kind, dd, 1 + r.Intn(maxShards), 1 + r.Intn(maxRF), nil})
 		default:
-			evs = append(evs, evStep{"drop", r.Intn(nDB), 0, 0, nil})
+			dd := r.Intn(nDB)
+			delete(exists, dd)
+			evs = append(evs, evStep{"drop", dd, 0, 0, nil})
 		}
 	}
 	machineRun(c, r, evs)
@@ -952,6 +1236,52 @@ func (m *machine) judgePlacement(c *core.Ctx, d int, cfg *models.Database, befor
 	return after, newRaw, true
 }
 
+// noopEvent feeds an event the manager has to reject or ignore: neither its state nor any persisted
+// assignment may change (the model answers with its unchanged state).
+func (m *machine) noopEvent(c *core.Ctx, op string, ev *discovery.Event) {
+	before := m.repo.snapshot(constants.ShardAssignmentPath + "/")
+	m.repo.mu.Lock()
+	m.repo.faultFired = false
+	m.repo.mu.Unlock()
+	c.Guard(op, func() string {
+		master.VerifProcessEvent(m.mgr, ev)
+		out := m.dump()
+		after := m.repo.snapshot(constants.ShardAssignmentPath + "/")
+		same := len(before) == len(after)
+		for k, v := range before {
+			same = same && after[k] == v
+		}
+		if !same {
+			out += " persisted-assignments-changed"
+		}
+		return out
+	})
+	m.oracle(c, op)
+}
+
+// cfgh mirrors the repository side of one handled config event in the model (stateManager.shardAssignment:
+// GetShardAssign -> create / modify / re-trigger, storage.GetLiveNodes, the two Puts): the model is given
+// what the handler found (registered nodes in listing order, the persisted assignment, the armed faults)
+// and what is persisted afterwards; it answers with the observed assignment iff some pair of random
+// draws (start, shift < number of nodes) makes the model persist exactly that.
+func (m *machine) cfgh(c *core.Ctx, d int, cfg *models.Database, faults string, reg []models.NodeID, inRepo *models.ShardAssignment) {
+	if faults == "" {
+		faults = "-"
+	}
+	show := func(a *models.ShardAssignment) string {
+		if a == nil {
+			return "none"
+		}
+		return strings.TrimSpace("some " + showAsg(a))
+	}
+	after, raw := m.persisted(d)
+	if after == nil && raw != "" {
+		return // reported by judgePlacement
+	}
+	op := fmt.Sprintf("cfgh %d %d %d %s | %s | %s | %s", d, cfg.NumOfShard, cfg.ReplicaFactor, faults, showNodes(reg), show(inRepo), show(after))
+	c.Op(op, "persisted "+show(after))
+}
+
 // machineRun feeds the events into a fresh real stateManager (in-memory repo) one by one.
 // For "cfg"/"cfgq": an unknown db is created with b shards and replica factor c; a known db grows
 // by b%4 shards (0 = re-trigger of the unchanged assignment). "cfg" delivers the assignment watch
@@ -965,34 +1295,30 @@ func machineRun(c *core.Ctx, _ *rand.Rand, evs []evStep) {
 	c.Op("reset", "ok")
 	for _, e := range evs {
 		switch e.kind {
-		case "up":
-			id := e.a
-			node := models.StatefulNode{ID: models.NodeID(id)}
-			node.HostIP = "10.0.0." + strconv.Itoa(id)
-			data, _ := json.Marshal(&node)
-			key := constants.GetStorageLiveNodePath(strconv.Itoa(id))
-			repo.set(key, data)
-			if m.live[id] {
-				c.Branch("ev-up-already-live")
-			} else {
-				c.Branch("ev-up")
+		case "up", "down": // the registration changes and the node watch catches up at once
+			m.regChange(c, e.a, e.kind == "up")
+			m.deliverNode(c, -1)
+		case "register", "crash": // the registration changes; the node event stays queued (lagging node watch)
+			m.regChange(c, e.a, e.kind == "register")
+			c.Branch("ev-" + e.kind + "-event-queued")
+		case "delivernode":
+			if len(m.nodePending) == 0 {
+				c.Branch("ev-delivernode-nothing-pending")
 			}
-			m.live[id] = true
-			m.event(c, fmt.Sprintf("up %d", id), &discovery.Event{Type: discovery.NodeStartup, Key: key, Value: data}, true)
-		case "down":
-			id := e.a
-			key := constants.GetStorageLiveNodePath(strconv.Itoa(id))
-			repo.del(key)
-			switch {
-			case !m.live[id]:
-				c.Branch("ev-down-not-live")
-			case m.leads(id):
-				c.Branch("ev-down-leader")
-			default:
-				c.Branch("ev-down")
-			}
-			delete(m.live, id)
-			m.event(c, fmt.Sprintf("down %d", id), &discovery.Event{Type: discovery.NodeFailure, Key: key}, true)
+			m.deliverNode(c, 1)
+		case "watchmode":
+			m.watched = e.a != 0
+			c.Branch("ev-watchmode")
+		case "getfail":
+			repo.mu.Lock()
+			repo.failAsgGet = true
+			repo.mu.Unlock()
+			c.Branch("ev-arm-get-fault")
+		case "listfail":
+			repo.mu.Lock()
+			repo.failLiveList = true
+			repo.mu.Unlock()
+			c.Branch("ev-arm-list-fault")
 		case "putfail":
 			repo.failAsgPut = e.a
 			c.Branch("ev-arm-put-fault")
@@ -1002,15 +1328,41 @@ func machineRun(c *core.Ctx, _ *rand.Rand, evs []evStep) {
 			repo.mu.Unlock()
 			c.Branch("ev-arm-state-fault")
 		case "burst":
+			m.deliverNode(c, -1) // the node watch catches up before the burst
 			m.burst(c, e.burst)
 		case "failover":
 			m.failover(c, e.burst)
-		case "cfg", "cfgq": // create database / grow shards
+		case "badcfg": // a config event the handler must reject: invalid JSON, empty database name, empty value
+			var val []byte
+			switch e.a % 3 {
+			case 0:
+				val = []byte("{\"name\":\"db1\",\"numOfShard\":")
+			case 1:
+				val, _ = json.Marshal(&models.Database{Name: "", NumOfShard: 2, ReplicaFactor: 1})
+			}
+			c.Branch(fmt.Sprintf("ev-badcfg-%d", e.a%3))
+			m.noopEvent(c, "noop badcfg", &discovery.Event{Type: discovery.DatabaseConfigChanged, Key: constants.GetDatabaseConfigPath("db1"), Value: val})
+		case "badnode": // a node event the handler must ignore: failure of a non-numeric key, start-up with an undecodable value
+			if e.a%2 == 0 {
+				c.Branch("ev-badnode-failure-key")
+				m.noopEvent(c, "noop badnode", &discovery.Event{Type: discovery.NodeFailure, Key: constants.GetStorageLiveNodePath("node-x")})
+			} else {
+				c.Branch("ev-badnode-startup-value")
+				m.noopEvent(c, "noop badnode", &discovery.Event{Type: discovery.NodeStartup, Key: constants.GetStorageLiveNodePath("1"), Value: []byte("{\"id\":")})
+			}
+		case "cfg", "cfgq", "cfgshrink": // create database / grow shards / (cfgshrink) ask for fewer shards than there are
 			d := e.a
 			cfg, ok := m.dbs[d]
 			if !ok {
 				cfg = &models.Database{Name: dbName(d), NumOfShard: e.b, ReplicaFactor: e.c}
 				c.Branch("ev-create-db")
+			} else if e.kind == "cfgshrink" {
+				n := cfg.NumOfShard - 1 - e.b%2
+				if n < 1 {
+					n = 1
+				}
+				cfg = &models.Database{Name: cfg.Name, NumOfShard: n, ReplicaFactor: cfg.ReplicaFactor}
+				c.Branch("ev-shrink-db")
 			} else {
 				cfg = &models.Database{Name: cfg.Name, NumOfShard: cfg.NumOfShard + e.b%4, ReplicaFactor: cfg.ReplicaFactor}
 				c.Branch("ev-grow-db")
@@ -1018,6 +1370,7 @@ func machineRun(c *core.Ctx, _ *rand.Rand, evs []evStep) {
 			data, _ := json.Marshal(cfg)
 			asgKey := constants.GetDatabaseAssignPath(cfg.Name)
 			before, oldRaw := m.persisted(d)
+			inRepo := before // what the handler will find in the repository (the model is given this)
 			if rec := m.lastPersisted[d]; rec != nil {
 				if before == nil || showAsg(before) != showAsg(rec) {
 					c.Branch("cfg-persisted-differs-from-record")
@@ -1026,15 +1379,66 @@ func machineRun(c *core.Ctx, _ *rand.Rand, evs []evStep) {
 			}
 			putsBefore := repo.puts(asgKey)
 			armed := repo.failAsgPut > 0
+			faults := ""
+			repo.mu.Lock()
+			if repo.failAsgGet {
+				faults += "g"
+			}
+			if repo.failLiveList {
+				faults += "l"
+			}
+			repo.mu.Unlock()
+			switch repo.failAsgPut {
+			case 1:
+				faults += "p"
+			case 2:
+				faults += "q"
+			}
 			m.dbs[d] = cfg
 			repo.set(constants.GetDatabaseConfigPath(cfg.Name), data)
+			// the nodes alive at creation / growth = the registrations the repository lists while the event is
+			// handled; the manager's own LiveNodes may lag behind them by the queued node events
 			liveNow := m.liveIDs()
+			if len(m.nodePending) > 0 {
+				c.Branch("cfg-while-node-events-pending")
+				reg, same := m.registered(), true
+				for id := range reg {
+					same = same && m.live[id]
+				}
+				for id := range m.live {
+					same = same && reg[id]
+				}
+				if !same {
+					c.Branch("cfg-registered-nodes-differ-from-managers-view")
+				}
+			}
+			m.cfgSeq++
 			m.event(c, fmt.Sprintf("dbcfg %d", d), &discovery.Event{Type: discovery.DatabaseConfigChanged,
 				Key: constants.GetDatabaseConfigPath(cfg.Name), Value: data}, false)
 			if armed && repo.failAsgPut == 0 {
 				c.Branch("ev-put-fault-hit")
 			}
-			repo.failAsgPut = 0 // the fault is for this config event only
+			repo.failAsgPut = 0 // the faults are for this config event only
+			repo.mu.Lock()
+			if strings.Contains(faults, "g") {
+				if repo.failAsgGet {
+					c.Branch("ev-get-fault-not-hit")
+				} else if inRepo != nil {
+					c.Branch("ev-get-fault-hit-existing-db")
+				} else {
+					c.Branch("ev-get-fault-hit-new-db")
+				}
+			}
+			if strings.Contains(faults, "l") {
+				if repo.failLiveList {
+					c.Branch("ev-list-fault-not-hit")
+				} else {
+					c.Branch("ev-list-fault-hit")
+				}
+			}
+			repo.failAsgGet, repo.failLiveList = false, false
+			repo.mu.Unlock()
+			m.cfgh(c, d, cfg, faults, liveNow, inRepo)
 			after, newRaw, okp := m.judgePlacement(c, d, cfg, before, oldRaw, liveNow)
 			if !okp {
 				continue
@@ -1049,7 +1453,7 @@ func machineRun(c *core.Ctx, _ *rand.Rand, evs []evStep) {
 			} else {
 				c.Branch("ev-cfg-nothing-persisted")
 			}
-			if e.kind == "cfg" { // prompt: the watch catches up with everything persisted for this database
+			if e.kind != "cfgq" { // prompt: the watch catches up with everything persisted for this database
 				for len(m.pending[d]) > 0 {
 					raw := m.pending[d][0]
 					m.pending[d] = m.pending[d][1:]
@@ -1119,6 +1523,9 @@ func machineRun(c *core.Ctx, _ *rand.Rand, evs []evStep) {
 }
 
 const sentinelDB = 900
+
+// markerAsgKey: the assignment key of the quiescence marker database (never subject to read faults)
+var markerAsgKey = constants.GetDatabaseAssignPath(dbName(sentinelDB))
 
 func markerCfg() *models.Database {
 	return &models.Database{Name: dbName(sentinelDB), NumOfShard: 0, ReplicaFactor: 1}
@@ -1255,28 +1662,45 @@ func (m *machine) failover(c *core.Ctx, silent []evStep) {
 			delete(m.lastPersisted, e.a)
 		}
 	}
-	// the old master's watches are gone with it
+	// the old master's watches are gone with it (also node events it had not been given yet); what
+	// the new master is told about the nodes is the registrations
+	if len(m.nodePending) > 0 {
+		c.Branch("failover-with-undelivered-node-events")
+	}
+	m.nodePending = nil
+	m.live = m.registered()
 	m.pending, m.lastRaw = map[int][][]byte{}, map[int][]byte{}
 	m.delivered = map[int]*models.ShardAssignment{}
 	known := m.dbs // the configs in the repository; the new master learns them from the replay
 	m.dbs = map[int]*models.Database{}
+	getFault := false
+	for _, e := range silent {
+		getFault = getFault || e.kind == "getfail"
+	}
 	repo.mu.Lock()
 	repo.failAsgPut, repo.failStatePut = 0, false
+	// a read fault during the take-over: the first read of a persisted assignment (config replay) fails
+	repo.failAsgGet, repo.failLiveList, repo.faultKey = getFault, false, ""
 	repo.mu.Unlock()
+	if getFault {
+		c.Branch("failover-with-get-fault")
+	}
 	c.Op("reset", "ok")
 
 	// what is persisted before the new master looks at the configs
 	type persistedBefore struct {
-		asg *models.ShardAssignment
-		raw string
+		asg    *models.ShardAssignment
+		raw    string
+		inRepo *models.ShardAssignment
 	}
 	before := map[int]persistedBefore{}
 	for d := range known {
 		a, raw := m.persisted(d)
+		inRepo := a
 		if rec := m.lastPersisted[d]; rec != nil {
 			a = rec
 		}
-		before[d] = persistedBefore{a, raw}
+		before[d] = persistedBefore{a, raw, inRepo}
 	}
 	liveNow := m.liveIDs()
 
@@ -1331,8 +1755,32 @@ func (m *machine) failover(c *core.Ctx, silent []evStep) {
 	m.dbs[sentinelDB] = markerCfg()
 	op := "batch " + strings.Join(segs, " | ")
 	c.Op(op, m.dump())
+	// the read fault of the take-over: which replayed config it hit (if any)
+	repo.mu.Lock()
+	faultKey := repo.faultKey
+	if getFault && repo.failAsgGet {
+		c.Branch("failover-get-fault-not-hit")
+	}
+	repo.failAsgGet, repo.faultKey = false, ""
+	repo.mu.Unlock()
 	// the replayed config events may have (re)assigned shards: same placement clauses as for a live config event
-	for d, cfg := range known {
+	var knownIDs []int
+	for d := range known {
+		knownIDs = append(knownIDs, d)
+	}
+	sort.Ints(knownIDs)
+	for _, d := range knownIDs {
+		cfg := known[d]
+		if d != sentinelDB {
+			f := ""
+			if faultKey == constants.GetDatabaseAssignPath(cfg.Name) {
+				f = "g"
+				if before[d].inRepo != nil {
+					c.Branch("failover-get-fault-hit-existing-db")
+				}
+			}
+			m.cfgh(c, d, cfg, f, liveNow, before[d].inRepo)
+		}
 		if _, _, ok := m.judgePlacement(c, d, cfg, before[d].asg, before[d].raw, liveNow); !ok {
 			continue
 		}
@@ -1485,7 +1933,9 @@ func (m *machine) leads(id int) bool {
 }
 
 func (m *machine) liveIDs() []models.NodeID {
-	kvs, _ := m.repo.List(context.Background(), constants.StorageLiveNodesPath)
+	m.repo.mu.Lock()
+	kvs := m.repo.listLocked(constants.StorageLiveNodesPath)
+	m.repo.mu.Unlock()
 	var out []models.NodeID
 	for _, kv := range kvs {
 		n := models.StatefulNode{}
